@@ -225,10 +225,16 @@ impl<Resp> Drop for ResponseGuard<'_, Resp> {
         // closing the receiver before sending the cancel message, it is guaranteed that if the
         // dispatch task misses an early-arriving cancellation message, then it will see the
         // receiver as closed.
+        #[cfg(feature = "verif")]
+        crate::verif::yield_point("guard_drop_enter");
         self.response.close();
+        #[cfg(feature = "verif")]
+        crate::verif::yield_point("guard_drop_mid");
         if self.cancel {
             self.cancellation.cancel(self.request_id);
         }
+        #[cfg(feature = "verif")]
+        crate::verif::yield_point("guard_drop_exit");
     }
 }
 
